@@ -10,7 +10,7 @@ VARIANTS = ['asan']
 RULE = ('grammar-derived valid texts over random schemas (no deprecated options; free-form key=value sections included) with an error injected at a token position (unknown name, '
         'unconvertible value, wrong token, premature end), laid out with any mix of # // /* */ comments (also multi-line), blank lines, CRLF, multi-line quoted strings, backslash-newline '
         'continuations and 0-2 levels of include; the generator tracks the file and end line of every token, model_lang decides at which token the text must be rejected. Expected: parse-error '
-        'code, >= 1 diagnostic, every diagnostic naming that file and that line; the judged text is given through cfg_parse_buf, cfg_parse_fp or cfg_parse(file), in 40% of cases after an earlier accepted parse (comments and blank lines) on the same context. Second clause: every accepted parse delivers no diagnostic. '
+        'code, >= 1 diagnostic, every diagnostic naming that file and that line; the judged text is given through cfg_parse_buf, cfg_parse_fp or cfg_parse(file), in 40% of cases after an earlier accepted parse (comments and blank lines) on the same context. Second clause: every accepted parse delivers no diagnostic. Third family: 19 malformed undeclared items under CFGF_IGNORE_UNKNOWN (the error paths of the skipping sub-parser), laid out over several lines, at top level and inside a section. '
         'non-trivial: the error point is preceded by a newline-bearing construct other than a blank line; distinct = case hash')
 
 SEPS = [' ', ' ', '\n', '\n', '  \n\n ', '\t', '\r\n', ' # c\n', ' // c\n', ' /* c */ ', ' /* multi\n line\n*/ ', '\n# own line\n', '\n\n// x\n\n', ' /**/ ', ' #\n']
@@ -175,7 +175,79 @@ def build(spec):
     return files, [t for t, _ in stream], [g for _, g in stream], ('main', total)
 
 
+# malformed *undeclared* items under CFGF_IGNORE_UNKNOWN: (tokens, index of the first token that cannot continue any well-formed item; None = end of input)
+SKIP_BAD = [(['unk', ','], 1), (['unk', ')'], 1), (['unk', '}'], 1), (['unk', 'ttl', '='], 2), (['unk', 'ttl', 'x'], 2), (['unk', 'ttl', ','], 2), (['unk', '=', ','], 2),
+            (['unk', '=', ')'], 2), (['unk', '+=', ')'], 2), (['unk', '+=', '='], 2), (['unk', '(', 'a'], None), (['unk', '(', 'a', ','], None), (['unk', '{', 'x', '=', '1'], None),
+            (['unk', 'ttl', '{', 'deep', '{', '}'], None), (['unk', '=', '{', '1', ','], None), (['unk', '='], None), (['unk'], None), (['unk', 'ttl'], None),
+            (['unk', '{', 'a', '=', '"open'], None)]
+
+
+def skip_specs(tier, seed):
+    rng = core.seeded_rng(seed, 'c06skip')
+    for rep in range(3 if tier == 'quick' else 40):
+        for k, (toks, bad) in enumerate(SKIP_BAD):
+            for where in ('top', 'in-section'):
+                yield {'skip': k, 'where': where, 'seps': [rng.choice([' ', '\n', '\n\n', ' # c\n', ' /* a\n b */ ', '\t']) for _ in range(len(toks) + 6)], 'lead': rng.randint(0, 4)}
+
+
+def skip_text(spec):
+    """-> (text, expected line of the diagnostic)"""
+    toks, bad = SKIP_BAD[spec['skip']]
+    pre = ['i', '=', '1'] + (['one', '{'] if spec['where'] == 'in-section' else [])
+    seq = pre + list(toks)
+    text = '\n' * spec['lead']
+    line = 1 + spec['lead']
+    badline = None
+    for n, t in enumerate(seq):
+        text += t
+        line += t.count('\n')
+        if bad is not None and n == len(pre) + bad:
+            badline = line
+            break
+        sep = spec['seps'][n % len(spec['seps'])]
+        if t == '"open':
+            sep = ''
+        text += sep
+        line += sep.count('\n')
+    if badline is None:
+        badline = 1 + text.count('\n')      # rejected at the end of the input
+    return text, badline
+
+
+def skip_script(spec):
+    decls = [D('i', 'int', default=0), D('one', 'sec', 0, sub=[D('z', 'int', default=0)])]
+    lines, sid = schema.emit_schema(decls)
+    text, _ = skip_text(spec)
+    return '\n'.join(lines + ['init 0 %d %d' % (sid, core.F_IGNORE_UNKNOWN), 'parse_buf 0 %s' % hx(text)])
+
+
+def skip_judge(spec, events, death):
+    v = Verdict()
+    text, badline = skip_text(spec)
+    toks, bad = SKIP_BAD[spec['skip']]
+    tag = '%s@%s' % ('-'.join(toks)[:24], 'eof' if bad is None else toks[bad])
+    if death is not None:
+        v.bad('crash:%s@%s:skipper' % (death['kind'], death['where']), 'text %r: %s' % (text, death['text'][-400:]))
+        return v
+    r = [e for e in events if e.get('ev') == 'r' and e.get('op') == 'parse_buf']
+    diags = [(unhx(e['file']), e['line'], unhx(e['msg'])) for e in events if e.get('ev') == 'diag']
+    v.nontrivial = True
+    v.notes['malformed_unknown_items'] = 1
+    if not r:
+        v.bad('harness:short-log', 'no parse result')
+    elif r[0]['rc'] != 1:
+        v.bad('skipper:not-rejected:%s' % tag, 'malformed undeclared item under ignore-unknown: rc=%s; text %r' % (r[0]['rc'], text))
+    elif not diags:
+        v.bad('skipper:silent-reject:%s' % tag, 'malformed undeclared item rejected without a diagnostic; text %r' % text)
+    elif any(f != '[buf]' for f, l, m in diags):
+        v.bad('skipper:wrong-file', 'diagnostics %r' % diags[:2])
+    elif any(l != badline for f, l, m in diags):
+        v.bad('skipper:wrong-line:%s' % tag, 'malformed undeclared item: diagnostic %r, the offending token ends on line %d; text %r' % (diags[0], badline, text))
+    return v
+
+
 def gen(tier, seed):
+    yield from skip_specs(tier, seed)
     rng = core.seeded_rng(seed, 'c06')
     n = 60000 if tier == 'quick' else 600000
     i = 0
@@ -189,6 +261,8 @@ def gen(tier, seed):
 
 
 def script(spec):
+    if 'skip' in spec:
+        return skip_script(spec)
     decls = [D.from_json(j) for j in spec['decls']]
     files, flat, tags, eof = build(spec)
     lines, sid = schema.emit_schema(decls)
@@ -214,6 +288,8 @@ def script(spec):
 
 
 def judge(spec, events, death):
+    if 'skip' in spec:
+        return skip_judge(spec, events, death)
     v = Verdict()
     decls = [D.from_json(j) for j in spec['decls']]
     files, flat, tags, eof = build(spec)
